@@ -4,6 +4,7 @@
 package main
 
 import (
+	"runtime"
 	"time"
 	"runtime/pprof"
 	"fmt"
@@ -77,7 +78,27 @@ func usage() {
 	os.Exit(2)
 }
 
+// memoryBudget: a check that needs more than this is cut off and reported as an engine error (exit 1) instead of
+// taking the machine down; today's tree needs well under 2 GiB in either tier.
+const memoryBudget = 12 << 30
+
+func watchMemory(prop string) {
+	go func() {
+		var ms runtime.MemStats
+		for {
+			time.Sleep(500 * time.Millisecond)
+			runtime.ReadMemStats(&ms)
+			if ms.HeapAlloc > memoryBudget {
+				fmt.Printf("  ENGINE (error) [error] : the analysis needs more than %d GiB of memory (an interpreted loop that keeps allocating?): stopped, nothing is claimed\n", memoryBudget>>30)
+				fmt.Printf("VIOLATION property=%s replay=/verif/evidence/replays/%s-00-ENGINE-memory.json\n", prop, prop)
+				os.Exit(1)
+			}
+		}
+	}()
+}
+
 func runCheck(prop, tier string) (code int) {
+	watchMemory(prop)
 	if f := os.Getenv("GDSA_CPUPROFILE"); f != "" {
 		if w, err := os.Create(f); err == nil {
 			pprof.StartCPUProfile(w)
